@@ -287,6 +287,22 @@ impl Fx {
         }
     }
 
+    /// Fills the slot's DISSEMINATION spot of `store` as the model's `dissem` says: nothing, one
+    /// validly signed shred of every slice of the leader's other block O, or of B itself.
+    async fn populate(&self, store: &SharedBlockstore, dissem: &str) {
+        let blk = match dissem {
+            "empty" => return,
+            "other" => "O",
+            "same" => "B",
+            o => panic!("harness: unknown dissemination content {o}"),
+        };
+        let mut s = store.write().await;
+        for i in 0..self.ns {
+            let shred = self.shreds[&(blk.to_string(), i, i == self.ns - 1, "leader".to_string())][0].clone();
+            s.add_shred_from_dissemination(shred).await.expect("harness: dissemination fixture accepted");
+        }
+    }
+
     fn no_sh() -> Value {
         json!({"src": "-", "idx": 0, "g": 0, "last": false, "signer": "-", "dmg": false})
     }
@@ -611,6 +627,10 @@ impl Driver for RepairDriver {
         let mut ans = json!({"v": "-", "ok": false});
         let mut panic = String::new();
         match act["op"].as_str().unwrap_or("") {
+            "populate" => {
+                let rq = self.rq.as_ref().expect("requester");
+                self.rt.block_on(self.fx.populate(&rq.store, act["dissem"].as_str().expect("dissem")));
+            }
             "start" => {
                 let id = self.fx.ids["B"].clone();
                 let rq = self.rq.as_mut().expect("requester");
@@ -703,6 +723,7 @@ impl Driver for RepairDriver {
             sh.push(Value::Array(groups));
         }
         let marker = store.get_last_slice_index(&b).map_or(-1, |s| slice_num(s) as i64);
+        let dcache: Vec<bool> = (0..fx.ns).map(|i| store.cached_commitment(Slot::new(1), slice_index(i)).is_some()).collect();
         // get_block carries a debug assertion on the stored hash
         let done = match std::panic::catch_unwind(AssertUnwindSafe(|| store.get_block(&b).map(|blk| BlockInfo::from(blk).verif_hash().clone()))) {
             Ok(None) => "-".to_string(),
@@ -717,7 +738,7 @@ impl Driver for RepairDriver {
             || store.get_slice_root(&b, slice_index(fx.ns)).is_some()
             || store.disseminated_block_hash(Slot::new(1)).is_some()
             || store.get_slice_root(&fx.ids["Z"], slice_index(0)).is_some();
-        json!({"out": out, "roots": roots, "sh": sh, "marker": marker, "done": done, "other": other})
+        json!({"out": out, "roots": roots, "sh": sh, "marker": marker, "done": done, "dcache": dcache, "other": other})
     }
 
     fn diff_out(&mut self, _act: &Value, exp: &Value, got: &Value) -> Vec<String> {
@@ -745,7 +766,7 @@ impl Driver for RepairDriver {
 
     fn diff_obs(&self, exp: &Value, got: &Value) -> Vec<String> {
         let mut d = vec![];
-        for k in ["out", "roots", "sh", "marker", "done", "other"] {
+        for k in ["out", "roots", "sh", "marker", "done", "dcache", "other"] {
             let same = if k == "out" || k == "sh" { canon(&exp[k]) == canon(&got[k]) } else { exp[k] == got[k] };
             if !same {
                 d.push(k.to_string());
@@ -765,6 +786,7 @@ impl Driver for RepairDriver {
                 act["rp"]["req"]["t"].as_str().unwrap_or("?"),
                 if act["hit"].as_bool() == Some(true) { "hit" } else { "miss" }
             ),
+            "populate" => format!("populate:{}", act["dissem"].as_str().unwrap_or("?")),
             o => o.to_string(),
         }
     }
@@ -912,8 +934,9 @@ fn run_scenarios(path: &str, fx: Arc<Fx>, limit: usize, seed: u64) -> anyhow::Re
                 format!("{}:{}->{at}", h["kind"].as_str().unwrap_or("?"), h["rp"]["v"].as_str().unwrap_or("?"))
             })
             .collect();
-        let label = kinds.join("+");
-        rep.case(&label, case["script"].to_string(), case);
+        let dissem = case["dissem"].as_str().expect("dissem");
+        let label = format!("{}@{dissem}", kinds.join("+"));
+        rep.case(&label, format!("{dissem}:{}", case["script"]), case);
 
         let rt = new_rt();
         let (inbox_tx, inbox_rx) = mpsc::unbounded_channel();
@@ -938,6 +961,9 @@ fn run_scenarios(path: &str, fx: Arc<Fx>, limit: usize, seed: u64) -> anyhow::Re
         };
         let (etx, mut erx) = mpsc::channel(4096);
         let store: SharedBlockstore = Arc::new(RwLock::new(BlockstoreImpl::new(etx)));
+        // what Rotor left in the slot's dissemination spot before the repair starts
+        rt.block_on(fx.populate(&store, dissem));
+        while erx.try_recv().is_ok() {}
         let (ptx, mut prx) = mpsc::channel(4096);
         let (rtx, mut rrx) = mpsc::channel(4096);
         let vepoch = fx.vepoch(OWN);
